@@ -101,6 +101,11 @@ fn main() {
                     r.clear();
                     model.clear();
                 }
+                b'p' => {
+                    let d = fresh(1);
+                    r.push_back(d[0]);
+                    model.push_back(d[0]);
+                }
                 x => panic!("unknown op {x}"),
             }
             let (s1, s2) = r.as_slices();
